@@ -781,6 +781,21 @@ def horzsplit(a, *inc):
     return [MatVal(a.r, hi - lo, [[a.cells[i][j] for j in range(lo, hi)] for i in range(a.r)], a.kind) for lo, hi in zip(offs, offs[1:])]
 
 
+def diff(a, n=1, axis=-1):
+    """ca.diff: n-th order difference along `axis`; with the default axis (-1) along the FIRST NON-SINGLETON dimension
+    (MATLAB convention): down the rows unless the matrix has a single row."""
+    a = to_mat(a)
+    n = int(n.s().const_value()) if isinstance(n, MatVal) else int(n)
+    axis = int(axis.s().const_value()) if isinstance(axis, MatVal) else int(axis)
+    for _ in range(n):
+        ax = axis if axis in (0, 1) else (0 if a.r > 1 else 1)
+        if ax == 0:
+            a = MatVal(max(a.r - 1, 0), a.c, [[psub(a.cells[i + 1][j], a.cells[i][j]) for j in range(a.c)] for i in range(a.r - 1)], a.kind)
+        else:
+            a = MatVal(a.r, max(a.c - 1, 0), [[psub(a.cells[i][j + 1], a.cells[i][j]) for j in range(a.c - 1)] for i in range(a.r)], a.kind)
+    return a
+
+
 def is_diagonal(a):
     return a.r == a.c and all(i == j or not a.cells[i][j].t for i in range(a.r) for j in range(a.c))
 
@@ -1272,6 +1287,7 @@ def make_ca():
     ca.logic_and = lambda a, b: ew(a, b, lambda x, y: _logic("and", x, y))
     ca.logic_or = lambda a, b: ew(a, b, lambda x, y: _logic("or", x, y))
     ca.logic_not = unop("not")
+    ca.diff = diff
     ca.eq = rel("eq")
     ca.ne = rel("ne")
     ca.lt = rel("lt")
